@@ -16,6 +16,8 @@ pub fn plan(o: &Opts) -> Vec<GroupSpec> {
       "C02" => plan_par(o, "C02", 72, 720, true, |r| gen::gen_any(r, &GenCfg::core())),
       "C05" => plan_par(o, "C05", 96, 960, false, |r| gen::gen_rederive(r, &GenCfg::core())),
       "C13" => plan_c13(o),
+      "C14" => plan_c14(o),
+      "C20" => plan_par(o, "C20", 30, 120, false, |r| gen::gen_any(r, &GenCfg::core())),
       "C03" => plan_simple(o, "C03", 120, 1500, |r| vcore::gen_lat::gen_lattice(r, &GenCfg::core())),
       other => panic!("no plan for property {other}"),
    }
@@ -109,6 +111,32 @@ fn plan_c13(o: &Opts) -> Vec<GroupSpec> {
          vec![MemberSpec { prog: prog.clone(), opts: PrintOpts::plain(Kind::Ascent), meta: meta(&base, "ser", Kind::Ascent, true) }];
       if gen::par_rejects(&prog).is_none() && i % 2 == 0 {
          members.push(MemberSpec { prog: prog.clone(), opts: PrintOpts::plain(Kind::AscentPar), meta: meta(&base, "par", Kind::AscentPar, false) });
+      }
+      out.push(GroupSpec { members });
+   }
+   out
+}
+
+/// C14: programs compiled with #![generate_run_timeout], serial and parallel
+fn plan_c14(o: &Opts) -> Vec<GroupSpec> {
+   let n = n_programs(o, 48, 400);
+   let mut out = vec![];
+   let mut i = 0u64;
+   while out.len() < n {
+      let mut r = rng_for("C14", o.seed, i);
+      i += 1;
+      let prog = gen::gen_any(&mut r, &GenCfg::core());
+      let base = format!("C14-s{}-{}", o.seed, i - 1);
+      let mk = |kind: Kind, variant: &str, is_ref: bool| {
+         let mut opts = PrintOpts::plain(kind);
+         opts.attrs = vec!["generate_run_timeout".into()];
+         let mut m = meta(&base, variant, kind, is_ref);
+         m.attrs = opts.attrs.clone();
+         MemberSpec { prog: prog.clone(), opts, meta: m }
+      };
+      let mut members = vec![mk(Kind::Ascent, "ser", true)];
+      if gen::par_rejects(&prog).is_none() && i % 2 == 0 {
+         members.push(mk(Kind::AscentPar, "par", false));
       }
       out.push(GroupSpec { members });
    }
